@@ -1018,6 +1018,7 @@ fn scenario(rep: &mut Report, scratch: &Scratch, seed: u64, idx: u64, plan: Opti
     let git_wants = if changed.is_empty() { gix_wants.clone() } else { changed };
     let wants_differ = plan.fetch_depth.is_some() && gix_wants != git_wants;
     const WANTS_KEY: &str = "fetch with depth: gitoxide wants every mapped ref, git only those whose value changed — the server computes another shallow boundary / sends other objects (different .git/shallow, other auto-followed tags)";
+    const DEPTH_TAGS_KEY: &str = "fetch with depth: git does not fetch tags for the deepened commits (documented for --depth / --deepen), gitoxide auto-follows every tag whose object is present after the fetch";
     let mode_of = |name: &str| mappings.iter().find(|m| m.local.as_deref() == Some(name)).map(|m| m.mode.clone());
     let names: BTreeSet<&String> = after_gix.keys().chain(after_git.keys()).collect();
     for name in names {
@@ -1030,6 +1031,7 @@ fn scenario(rep: &mut Report, scratch: &Scratch, seed: u64, idx: u64, plan: Opti
             let key = match causes.get(name) {
                 Some(c) if !(wants_differ && implicit_tag) => c.clone(),
                 _ if wants_differ && implicit_tag => WANTS_KEY.to_string(),
+                _ if implicit_tag && plan.fetch_depth.is_some() && mode_of(name).as_deref() == Some("New") && b.is_none() => DEPTH_TAGS_KEY.to_string(),
                 _ => format!(
                     "ref differs: {} gix={} ({}) git flag={} ({}) tagopt={:?}",
                     ref_class(name),
